@@ -9,12 +9,13 @@ import (
 	"time"
 
 	"github.com/redis/rueidis"
+	"github.com/redis/rueidis/mock"
 	"github.com/redis/rueidis/rueidislock"
 )
 
 func init() {
 	suites["lock"] = suite{
-		rule: "C34: (1) script-level: acqms/acqat/fcqms/fcqat/extend/delkey on the fake's registers with own, foreign and missing values vs the Lean register scripts; (2) end-to-end: real rueidislock Lockers (KeyMajority 1..3, NoLoopTracking, FallbackSETPX on/off, one fake connection per Locker with OPTOUT tracking and invalidation pushes) driven one event at a time to quiescence: TryWithContext, WithContext waiters (goroutines), ForceWithContext, release (cancel func), third-party deletion and expiry of single keys, one fixed gated schedule with two waiters of ONE Locker under NoLoopTracking (known finding lock:lost-wakeup:noloop-sibling-failed-attempt) and its control without NOLOOP, injected failures of one acquisition (bare-majority holders) and of one extend, third-party writes; the anonymous state (live contexts, waiters, every live holder owns a majority, all keys free when idle) is compared with the Lean model run to quiescence on a canonical schedule; the harness itself flags two live contexts in episodes without force/expiry/deletion/faults and a key deleted by its holder's delkey while that holder's context is still live; after a waiter took the lock over, episodes destroy no further keys (how many spare keys the new holder got is a scheduler race); non-trivial = distinct op within its episode prefix",
+		rule: "C34: (1) script-level: acqms/acqat/fcqms/fcqat/extend/delkey on the fake's registers with own, foreign and missing values vs the Lean register scripts; (2) end-to-end: real rueidislock Lockers (KeyMajority 1..3, NoLoopTracking, FallbackSETPX on/off, one fake connection per Locker with OPTOUT tracking and invalidation pushes) driven one event at a time to quiescence: TryWithContext, WithContext waiters (goroutines), ForceWithContext, release (cancel func), third-party deletion and expiry of single keys, one fixed gated schedule with two waiters of ONE Locker under NoLoopTracking (known finding lock:lost-wakeup:noloop-sibling-failed-attempt) and its control without NOLOOP, lock names containing ':' (one, several, leading, trailing, empty segments), the prefix itself, other separators and non-ASCII bytes, raw invalidation pushes (`inval`: well-formed keys, foreign names, non-numeric / out-of-range / negative indexes, the bare prefix - panics are answers), injected failures of one acquisition (bare-majority holders) and of one extend, third-party writes; the anonymous state (live contexts, waiters, every live holder owns a majority, all keys free when idle) is compared with the Lean model run to quiescence on a canonical schedule; the harness itself flags two live contexts in episodes without force/expiry/deletion/faults and a key deleted by its holder's delkey while that holder's context is still live; after a waiter took the lock over, episodes destroy no further keys (how many spare keys the new holder got is a scheduler race); non-trivial = distinct op within its episode prefix",
 		run:  runLock,
 		replay: func(c *Ctx, lines []string) {
 			ep := &lkEp{}
@@ -46,6 +47,9 @@ type lkEp struct {
 	early   []string
 	failKey string
 	noloop  bool
+	name    string // the lock name of the episode (names with ':' etc. exercise the key-name parsing of onInvalidations)
+	fcs     map[int]*fakeClient
+	acqCalls int
 	gmu     sync.Mutex
 	gates   map[string]chan struct{} // "<conn>:<key index>" -> gate that holds that connection's delkey of that key
 	gated   map[int]int              // conn -> goroutines waiting at a gate
@@ -54,7 +58,7 @@ type lkEp struct {
 	dead    bool
 }
 
-func (e *lkEp) key(i int) string { return fmt.Sprintf("rueidislock:%d:L", i) }
+func (e *lkEp) key(i int) string { return fmt.Sprintf("rueidislock:%d:%s", i, e.name) }
 
 func (e *lkEp) close() {
 	if e.srv == nil || e.dead {
@@ -78,7 +82,9 @@ func (e *lkEp) locker(i int, px bool) rueidislock.Locker {
 	}
 	l, err := rueidislock.NewLocker(rueidislock.LockerOption{
 		ClientBuilder: func(opt rueidis.ClientOption) (rueidis.Client, error) {
-			return newFakeClient(e.srv, i+1, opt), nil
+			fc := newFakeClient(e.srv, i+1, opt)
+			e.fcs[i] = fc
+			return fc, nil
 		},
 		KeyMajority: int32(e.m), KeyValidity: time.Hour, ExtendInterval: 30 * time.Minute, TryNextAfter: time.Minute,
 		NoLoopTracking: e.noloop, FallbackSETPX: px,
@@ -124,6 +130,12 @@ func (e *lkEp) state(c *Ctx, line string) string {
 		if own < e.m {
 			maj = false
 		}
+	}
+	if live == 0 && e.waiting > 0 && held == 0 {
+		c.Fail("lock:lost-wakeup:waiter-parked-on-free-lock", line, fmt.Sprintf("%d WithContext caller(s) stay parked although every key of the lock is free and nobody holds it", e.waiting))
+	}
+	if !maj {
+		c.Fail("lock:loss-not-noticed", line, "a lock context is still live although its holder owns fewer than KeyMajority keys and every goroutine is at rest")
 	}
 	if live > 1 && !e.dirty {
 		c.Fail("lock:two-live-contexts", line, fmt.Sprintf("%d lock contexts are live at once without force/expiry/deletion/fault", live))
@@ -176,7 +188,15 @@ func (e *lkEp) op(c *Ctx, line string) {
 			}
 			return ""
 		}
-		e.noloop = !(len(w) > 2 && w[2] == "noloop=0")
+		e.noloop, e.name, e.fcs, e.acqCalls = true, "L", map[int]*fakeClient{}, 0
+		for _, x := range w[2:] {
+			if x == "noloop=0" {
+				e.noloop = false
+			}
+			if strings.HasPrefix(x, "name=") {
+				e.name = unhx(x[5:])
+			}
+		}
 		e.gates, e.gated = map[string]chan struct{}{}, map[int]int{}
 		e.srv.beforeExec = func(cl *fakeClient, cmd []string) {
 			// gates on delkey script calls (EVALSHA by sha or EVAL by text), per connection and key
@@ -205,6 +225,9 @@ func (e *lkEp) op(c *Ctx, line string) {
 		}
 		e.lastVal = map[int]string{}
 		e.srv.onExec = func(l *logged) {
+			if strings.HasPrefix(l.name, "lk.acq") || strings.HasPrefix(l.name, "lk.fcq") {
+				e.acqCalls++
+			}
 			if (strings.HasPrefix(l.name, "lk.acq") || strings.HasPrefix(l.name, "lk.fcq")) && l.rep.typ == '+' && l.cl != nil {
 				e.lastVal[l.cl.id] = l.args[0]
 			}
@@ -269,9 +292,9 @@ func (e *lkEp) op(c *Ctx, line string) {
 		}
 		if !watchdog(func() {
 			if force {
-				ctx, cancel, err = l.ForceWithContext(bg, "L")
+				ctx, cancel, err = l.ForceWithContext(bg, e.name)
 			} else {
-				ctx, cancel, err = l.TryWithContext(bg, "L")
+				ctx, cancel, err = l.TryWithContext(bg, e.name)
 			}
 		}) {
 			e.dead = true
@@ -292,7 +315,7 @@ func (e *lkEp) op(c *Ctx, line string) {
 		e.waiting++
 		e.mu.Unlock()
 		go func() {
-			ctx, cancel, err := l.WithContext(src, "L")
+			ctx, cancel, err := l.WithContext(src, e.name)
 			if err == nil {
 				e.got(ctx, cancel, conn)
 			}
@@ -342,7 +365,7 @@ func (e *lkEp) op(c *Ctx, line string) {
 			return
 		}
 		lh, lw := e.locker(0, false), e.locker(1, false)
-		ctx, cancel, err := lh.TryWithContext(bg, "L")
+		ctx, cancel, err := lh.TryWithContext(bg, e.name)
 		if err != nil {
 			c.Emit(line, "setup-failed", true)
 			return
@@ -355,7 +378,7 @@ func (e *lkEp) op(c *Ctx, line string) {
 			e.waiting++
 			e.mu.Unlock()
 			go func() {
-				ctx, cancel, err := lw.WithContext(src, "L")
+				ctx, cancel, err := lw.WithContext(src, e.name)
 				if err == nil {
 					e.got(ctx, cancel, 2)
 				}
@@ -404,6 +427,33 @@ func (e *lkEp) op(c *Ctx, line string) {
 		}
 		c.Hit(w[0])
 		c.Emit(line, e.sibState(), true)
+	case "inval": // inval <key>: the invalidation push for <key> reaches every Locker's connection (its
+		// OnInvalidations callback); observable: a parked waiter whose gate is signalled tries again
+		key := unhx(w[1])
+		before := e.acqCalls
+		ans := ""
+		// only the waiters' Locker (index 1) is told: the holder's own monitors would extend and thereby
+		// invalidate the key for real
+		if fc := e.fcs[1]; fc != nil && fc.onInval != nil {
+			func() {
+				defer func() {
+					if r := recover(); r != nil {
+						ans = "panic"
+					}
+				}()
+				fc.onInval([]rueidis.RedisMessage{mock.RedisBlobString(key)})
+			}()
+		}
+		if !settle() {
+			e.dead = true
+			c.Emit(line, "not-quiescent", true)
+			return
+		}
+		if ans == "" {
+			ans = fmt.Sprintf("retries=%d", e.acqCalls-before)
+		}
+		c.Hit("inval:" + ans)
+		c.Emit(line, ans, true)
 	case "failacq": // the next acquire script on key i fails with a server error (the caller sees a timeout)
 		i, _ := strconv.Atoi(w[1])
 		e.failAcq = e.key(i)
@@ -514,10 +564,46 @@ func runLock(c *Ctx) {
 			ep.op(c, l)
 		}
 	}
+	// (2b) lock names that stress the key-name parsing of onInvalidations: waiter wake-up after release, loss
+	// noticed after a third-party deletion, and raw invalidation pushes for well-formed and odd key texts
+	names := []string{"job:42", ":", "a::b", ":lead", "trail:", "rueidislock", "rueidislock:0:x", "0", "1:2:3", "sp ace", "dé:ü", "a/b|c", "L"}
+	for ni, nm := range names {
+		m := 1 + ni%2
+		if m == 1 && ni%4 == 0 {
+			m = 2
+		}
+		ep.op(c, fmt.Sprintf("reset %d name=%s", m, hx(nm)))
+		for _, l := range []string{"try 0", "with 1"} {
+			ep.op(c, l)
+		}
+		n := 2*m - 1
+		for _, k := range []string{
+			fmt.Sprintf("rueidislock:%d:%s", n-1, nm), "rueidislock:0:" + nm + ":x", "rueidislock:0:other", "rueidislock:x:" + nm,
+			"rueidislock::" + nm, "rueidislockX0:" + nm, "rueidislock:000:" + nm, "rueidislock:0", "other:0:" + nm,
+			"rueidislock:+0:" + nm, "rueidislock:-0:" + nm, "rueidislock:0x0:" + nm,
+		} {
+			ep.op(c, "inval "+hx(k))
+		}
+		ep.op(c, "extdel 0")
+		if m == 2 {
+			ep.op(c, "extdel 1")
+		}
+		ep.op(c, "release")
+		ep.op(c, "release")
+		// key texts on which onInvalidations panics (index out of range, negative, slice bounds): the panic leaves
+		// the Locker's RWMutex read-locked, so each gets an episode of its own that ends right there
+		if ni < 4 {
+			pk := []string{fmt.Sprintf("rueidislock:%d:%s", n, nm), "rueidislock:-1:" + nm, "rueidislock", "rueidislock:007:" + nm}[ni]
+			ep.op(c, fmt.Sprintf("reset %d name=%s", m, hx(nm)))
+			ep.op(c, "try 0")
+			ep.op(c, "with 1")
+			ep.op(c, "inval "+hx(pk))
+		}
+	}
 	// (3) random episodes
 	for i := 0; i < 3+c.N/10; i++ {
 		m := 1 + r.IntN(3)
-		ep.op(c, fmt.Sprintf("reset %d", m))
+		ep.op(c, fmt.Sprintf("reset %d name=%s", m, hx(names[r.IntN(len(names))])))
 		px := ""
 		if r.IntN(2) == 0 {
 			px = " px"
